@@ -82,6 +82,11 @@ type scenario struct {
 	HookPct    int      `json:"addconn_hook_pct"`
 	HookClose  bool     `json:"addconn_hook_closes_conn"`
 	RmDelay    int      `json:"doclose_hook_delay_ms"`
+	// RegisterTwice: notifiee 0 is handed to Notify twice (the registry is a set: it still is ONE notifiee
+	// and gets every notification exactly once); ReRegister: notifiee 1 is removed with StopNotify and
+	// registered again before anything happens
+	RegisterTwice bool `json:"notifiee0_registered_twice,omitempty"`
+	ReRegister    bool `json:"notifiee1_stopnotify_then_notify_again,omitempty"`
 	Actions    []action `json:"actions"`
 }
 
@@ -162,6 +167,7 @@ func (n *notifiee) Disconnected(_ network.Network, c network.Conn) {
 func gen(r *run.R, i int) *scenario {
 	rng := r.Rand(6, uint64(i))
 	sc := &scenario{ID: fmt.Sprintf("sched/%d", i), Notifiees: 2 + rng.IntN(2), CloseIn: -1}
+	sc.RegisterTwice, sc.ReRegister = i%6 == 1, i%6 == 4
 	delays := []int{0, 0, 1, 5, 50}
 	for k := 0; k < sc.Notifiees; k++ {
 		sc.DelayConn = append(sc.DelayConn, delays[rng.IntN(len(delays))])
@@ -256,7 +262,15 @@ func runScenario(t *testing.T, r *run.R, sc *scenario, caseIdx int) (res result)
 			panic(err)
 		}
 		for k := 0; k < sc.Notifiees; k++ {
-			sw.Notify(&notifiee{idx: k, rec: rec, sc: sc, peers: peers, rng: rngf})
+			nf := &notifiee{idx: k, rec: rec, sc: sc, peers: peers, rng: rngf}
+			sw.Notify(nf)
+			if k == 0 && sc.RegisterTwice {
+				sw.Notify(nf)
+			}
+			if k == 1 && sc.ReRegister {
+				sw.StopNotify(nf)
+				sw.Notify(nf)
+			}
 		}
 		sw.SetStreamHandler(func(s network.Stream) {
 			rec.add(ev{Kind: "stream", Conn: s.Conn().ID(), Peer: peers[s.Conn().RemotePeer()]})
